@@ -20,3 +20,4 @@ def run(chk):
     F.rule_memory_copy(chk, chk.repo, "C12.2")
     X.rule_replace_after_close(chk, "C12.3", concurrency=True)
     X.rule_store_failure_contained(chk, "C12.4")
+    X.rule_memory_marker_after_slot(chk, "C12.5")
